@@ -489,7 +489,7 @@ package restful
 // C07: the route's own setting overrides the container's. Proved when dispatch is the outermost entry point;
 // when the writer was already wrapped by ServeHTTP the override cannot take effect any more (finding D14).
 //@ ensures override: !isCRW(httpWriter) && err == nil && route.contentEncodingEnabled != nil && !*route.contentEncodingEnabled ==> !isCRW(writer)
-//@ ensures override-nested: isCRW(httpWriter) && err == nil && route.contentEncodingEnabled != nil && !*route.contentEncodingEnabled ==> !isCRW(writer)
+//@ ensures [C07] override-nested: isCRW(httpWriter) && err == nil && route.contentEncodingEnabled != nil && !*route.contentEncodingEnabled ==> !isCRW(writer)
 // C01: a route function is called only as the function of the selected route, with the request wrapper that names that route
 //@ callsite RouteFunction admitted: TrimRightSlashEnabled ==> routeAdmits(route, httpRequest)
 //@ callsite RouteFunction selected: err == nil && same(callee, route.Function) && arg0 == wrappedRequest && wrappedRequest.selectedRoute == route && arg1 == wrappedResponse && wrappedResponse.ResponseWriter == writer
